@@ -8,7 +8,7 @@ from lib.coqterm import cbool, clist, cN, copt
 
 ID = "C39"
 QUICK_N = 1200
-THOROUGH_N = 9000
+THOROUGH_N = 6000
 SHARD = 125
 TRANSLATORS = ["save_hooks"]
 COQ_PRELUDE = "From MV Require Import Model.SavePrelude Model.Save.\nOpen Scope N_scope.\n"
